@@ -47,12 +47,12 @@ CLAIMED["C08"] = dict(
     technique="property-based testing (proptest) against an RFC 8032 reference model; round trip through all verifiers",
     design="3/C08")
 CLAIMED["C09"] = dict(
-    text="Generated adversarial triples against the documented acceptance predicate evaluated on the integer model, both directions, for eight verification entry points: S+k*l / l / high bits, all 14 accepted encodings of the 8 torsion points as key and as R with the message searched until the cofactorless equation holds, mixed-order keys with messages searched for k*T=O, small-order R under honest keys, undecodable / non-canonical / arbitrary R and A, prehashed with contexts; default and legacy_compatibility builds (legacy S rule in the model), serial32, simd, avx512. Thorough tier adds a coverage-guided libFuzzer target (fz_verify, ASan, model predicate inside the target). Exploration level.",
+    text="Generated adversarial triples against the documented acceptance predicate evaluated on the integer model, both directions, for eight verification entry points: S+k*l / l / high bits, all 14 accepted encodings of the 8 torsion points as key and as R with the message searched until the cofactorless equation holds, mixed-order keys with messages searched for k*T=O, small-order R under honest keys, undecodable / non-canonical / arbitrary R and A, prehashed with contexts; default and legacy_compatibility builds (legacy S rule in the model), serial32, simd, avx512. Thorough tier adds a coverage-guided libFuzzer target (fz_verify, ASan, model predicate inside the target). Exploration level. Added while seeding: keys parsed from slices as well as arrays, the signing key's own verifiers on adversarial signatures, mixed-order keys with a solved-for small-order R (pure and prehashed), the identity as key with any chosen canonical S (S in [2^252, l) cannot be reached otherwise), key equality / hashing on alias encodings.",
     note="Trusts the reference model. Contexts longer than 255 bytes are outside the documented domain of the prehashed verifiers (debug_assert) and are not sent to them.",
     technique="property-based testing (proptest) with model-solved adversarial inputs; predicate oracle in both directions",
     design="3/C09")
 CLAIMED["C13"] = dict(
-    text="Generated batches (n incl. 0, 1 and the Straus/Pippenger switch up to 400) from a pool of honest entries with generated corruptions (foreign key, message flip, foreign R, foreign valid S, the cancellation pair S_i+e/S_j-e, duplication), error classes (S+l, undecodable R, every slice-length mismatch), permutations and repeated calls; verify_batch must be Ok exactly when the model's single-verification predicate holds for every entry, and Err (never panic/Ok) for the error classes. Exploration level.",
+    text="Generated batches (n incl. 0, 1 and the Straus/Pippenger switch up to 400) from a pool of honest entries with generated corruptions (foreign key, message flip, foreign R, foreign valid S, the cancellation pair S_i+e/S_j-e, duplication), error classes (S+l, undecodable R, every slice-length mismatch), permutations and repeated calls; verify_batch must be Ok exactly when the model's single-verification predicate holds for every entry, and Err (never panic/Ok) for the error classes. Exploration level. Added while seeding: single cancellation / swap pairs at structured index distances, exactly one corrupted entry at structured positions of batches of 1..1100 (incl. all-same batches), every alias S + k*l, and forgeries S_i += z_j, S_j -= z_i built from coefficients PREDICTED by a replica of the merlin derivation under the hypotheses that S (or everything) is not bound.",
     note="Domain as stated by the property: canonical torsion-free keys and R. Trusts the reference model.",
     technique="property-based testing (proptest): model-based + metamorphic (permutation, duplication, repetition)",
     design="3/C13")
@@ -72,7 +72,7 @@ CLAIMED["C15"] = dict(
     technique="property-based testing / fuzzing with structured and raw byte generators; totality + model oracle",
     design="3/C15")
 CLAIMED["C16"] = dict(
-    text="All 11 serialisable types x {bincode, serde_json} (serde feature, never compiled by the baseline): serialised bytes must equal the canonical encoding exactly, deserialize(serialize(v)) = v, and Deserialize succeeds iff the native decoder accepts the same bytes - fed right-length valid/invalid (non-canonical scalar, undecodable Edwards/Ristretto), short, over-long, malformed JSON shapes (incl. a valid prefix followed by one unparsable trailing element) and raw wire bytes; saved inputs of the repaired finding are replayed on every run; thorough tier adds the libFuzzer target fz_untrusted, which found that finding. Exploration level.",
+    text="All 11 serialisable types x {bincode, serde_json} (serde feature, never compiled by the baseline): serialised bytes must equal the canonical encoding exactly, deserialize(serialize(v)) = v, and Deserialize succeeds iff the native decoder accepts the same bytes - fed right-length valid/invalid (non-canonical scalar, undecodable Edwards/Ristretto), short, over-long, malformed JSON shapes (incl. a valid prefix followed by one unparsable trailing element) and raw wire bytes; saved inputs of the repaired finding are replayed on every run; thorough tier adds the libFuzzer target fz_untrusted, which found that finding. Exploration level. Added while seeding: three in-memory deserialisers as further formats (u8 sequence with an exact size hint, serde_json::Value array, byte slice) to drive the visitor paths that bincode and JSON text never take; short / trailing-unparsable-element shapes.",
     note="Trailing bytes after a complete bincode value are the format's concern and are not generated/asserted.",
     technique="property-based testing: round trip + model-predicted accept/reject per payload shape",
     design="3/C16")
@@ -82,12 +82,12 @@ CLAIMED["C17"] = dict(
     technique="property-based testing against a reference model / field axioms",
     design="3/C17")
 CLAIMED["C10"] = dict(
-    text="Metamorphic search over generated secrets: 24 operations not documented as variable-time run in release binaries WITHOUT hooks (five back ends quick; plus table-less builds thorough), once per secret (extreme nibble/byte patterns that drive table lookups to their ends plus proptest-generated structured secrets), under valgrind --tool=lackey --trace-mem=yes; the complete sequence of instruction addresses and load/store addresses+sizes between two marker stores must be byte-identical across all secrets of an (operation, back end) pair. The AVX-512 IFMA back end, which valgrind cannot execute, is observed by native ptrace single-stepping (sequence of instruction pointers inside the marked region) for the operations that dispatch to it. A deliberately variable-time control operation must be seen to differ under both tracers, otherwise the run is inconclusive (exit 2). Exploration level for this compiler's output.",
+    text="Metamorphic search over generated secrets: 24 operations not documented as variable-time run in release binaries WITHOUT hooks (five back ends quick; plus table-less builds thorough), once per secret (extreme nibble/byte patterns that drive table lookups to their ends plus proptest-generated structured secrets), under valgrind --tool=lackey --trace-mem=yes; the complete sequence of instruction addresses and load/store addresses+sizes between two marker stores must be byte-identical across all secrets of an (operation, back end) pair. The AVX-512 IFMA back end, which valgrind cannot execute, is observed by native ptrace single-stepping (sequence of instruction pointers inside the marked region) for the operations that dispatch to it. A deliberately variable-time control operation must be seen to differ under both tracers, otherwise the run is inconclusive (exit 2). Exploration level for this compiler's output. As built now: 59 operations (group, scalar, field-level predicates, equality on points with torsion, decoders, batch compression, key expansion, fixed-base tables of every radix created from a public point), secrets include values RELATED to the public inputs (equal / opposite / same-x), and a second oracle: the same regions under valgrind memcheck with the storage of every secret marked undefined (client request from the driver), which reports secret-dependent branches and addresses whether or not the concrete secret takes them (decoders excluded; one always-true assert allow-listed by function and source text).",
     note="IFMA: instruction addresses only (data addresses are not observed there). Trace equality on sampled secrets is not a proof; timing channels that are neither control-flow nor address dependent are out of scope.",
-    technique="metamorphic testing on execution traces (valgrind lackey; ptrace single-stepping for IFMA) over generated secrets",
+    technique="metamorphic testing on execution traces (valgrind lackey; ptrace single-stepping for IFMA) over generated secrets, plus dynamic taint tracking of the same executions (valgrind memcheck as the sanitizer)",
     design="3/C10")
 CLAIMED["C14"] = dict(
-    text="Generated create-use-drop sequences and calls under an instrumenting global allocator: (i) the contents of every heap block freed during constant-time multiscalar_mul (Edwards/Ristretto, n = 1..40 quick / 300 thorough, serial and vector copies via forced dispatch) and Scalar::batch_invert must be identical for two different secret-scalar vectors and contain no 8-byte window of the scalars, their radix-16 digit strings or partial products; (ii) SigningKey, ExpandedSecretKey, Ephemeral/Reusable/StaticSecret, SharedSecret are built in storage the harness owns, used, drop_in_place'd, and the storage searched for secret windows; (iii) explicit zeroize() results. Exploration level.",
+    text="Generated create-use-drop sequences and calls under an instrumenting global allocator: (i) the contents of every heap block freed during constant-time multiscalar_mul (Edwards/Ristretto, n = 1..40 quick / 300 thorough, serial and vector copies via forced dispatch) and Scalar::batch_invert must be identical for two different secret-scalar vectors and contain no 8-byte window of the scalars, their radix-16 digit strings or partial products; (ii) SigningKey, ExpandedSecretKey, Ephemeral/Reusable/StaticSecret, SharedSecret are built in storage the harness owns, used, drop_in_place'd, and the storage searched for secret windows; (iii) explicit zeroize() results. Exploration level. Added while seeding: the same drops in a Box that is freed right after (an erasure written as an ordinary store is removed by dead-store elimination there), explicit zeroize() of every secret type compared on the RAW storage (points: all four coordinates of the identity), n up to 150 in the quick tier, every back end in the quick tier.",
     note="Stack copies and registers are outside the statement and not inspected. Secrets are generated without zero bytes so that 'still there' is distinguishable from 'zeroed'.",
     technique="property-based testing with an instrumenting allocator (metamorphic: two secrets, same public inputs) and post-drop storage inspection",
     design="3/C14")
